@@ -54,13 +54,16 @@ class Layout:
             alt = rng.choice(['absent', 'absent', 'dir', 'file'])
             self.top[v] = [st, alt]
             t = self.j(v, '.Trash')
+            # the sticky bit is what counts, whatever the other bits: setgid / setuid without sticky is NOT sticky
+            sticky_mode = rng.choice([0o1777, 0o1777, 0o1755, 0o3777, 0o1700])
+            plain_mode = rng.choice([0o755, 0o755, 0o777, 0o2777, 0o2775, 0o4755, 0o6777])
             if st == 'sticky':
-                self.tree.append(['d', t, 0o1777])
+                self.tree.append(['d', t, sticky_mode])
             elif st == 'nonsticky':
-                self.tree.append(['d', t, 0o755])
+                self.tree.append(['d', t, plain_mode])
             elif st in ('link_sticky', 'link_nonsticky'):
                 real = self.j(v, 'realtrash')
-                self.tree.append(['d', real, 0o1777 if st == 'link_sticky' else 0o755])
+                self.tree.append(['d', real, sticky_mode if st == 'link_sticky' else plain_mode])
                 self.tree.append(['l', t, 'realtrash'])
             elif st == 'file':
                 self.tree.append(['f', t, 'not a dir'])
@@ -327,6 +330,10 @@ def victims(rng, lay, n=None):
         root = rng.choice(roots)
         sub = rng.choice(DIR_POOL)
         name = rng.choice(NAME_POOL) + ('%d' % k if rng.random() < 0.5 else '')
+        if rng.random() < 0.06:
+            # a name so long that <name>.trashinfo exceeds NAME_MAX: trash-put shortens the info name (and the payload name with it)
+            name = rng.choice(['L', '\xe9']) * rng.choice([246, 250, 255]) if rng.random() < 0.5 else ('long' * 70)[:rng.choice([246, 249, 255])]
+            name = name.encode('utf-8', 'surrogateescape')[:rng.choice([246, 250, 255])].decode('utf-8', 'ignore')
         parent = os.path.join(root, sub) if sub else root
         full = parent + '/' + name
         if any(full == v['path'] or full.startswith(v['path'] + '/') or v['path'].startswith(full + '/') for v in vs):
